@@ -211,8 +211,11 @@ def run_ops(ops):
                 if isinstance(s, tmo.MultiStream) and t[2] in s.phases:
                     key = (id(s), t[2])
                     v = s[t[2]]
-                    if key not in w.views or w.oid(v) is None:
+                    existing = w.oid(v)
+                    if existing is None:
                         w.views[key] = w.add(v, 'view'); emit(f'view {o}', f'ok {len(w.objs) - 1}')
+                    else:
+                        w.views[key] = existing     # e.g. reached again through a proxy sharing `_streams`
             elif op == 'read':
                 o = int(t[1]); s = w.objs[o]; attr = t[2]
                 rec = Recorder(w); _REC = rec
@@ -295,9 +298,11 @@ def run_ops(ops):
                 tmo.exceptions.UndefinedChemicalAlias) as e:
             if op in ('new',): raise
             # an operation the library rejects in this state (e.g. linking different classes, unlinking a
-            # locked view): skipped, nothing reaches the model
+            # locked view).  A mutator that raises may have run partly (e.g. `_reset_thermo` resets the
+            # memo and then fails on a stale phase view), so what the memo looks like afterwards is
+            # unknown to the model: the history ends here.
             _REC = None
-            continue
+            break
     return model_in, outs, failures, hits, changes
 
 
